@@ -1943,8 +1943,11 @@ func (k *Kernel) handleReplayedHeader(
 		))
 	}
 
-	if proof.Round > s.Voting.Round {
+	for proof.Round > s.Voting.Round {
 		// Later round than we expected.
+		// Each jump moves the voting view one round ahead,
+		// so keep jumping until the voting round is the replayed round:
+		// the replayed precommits must be filed under the round they were signed for.
 		if err := k.jumpVotingRound(ctx, s, proof.Round); err != nil {
 			return tmelink.ReplayedHeaderInternalError{
 				Err: fmt.Errorf(
